@@ -75,6 +75,10 @@ func (n *ZZRecNIC) ZZAddrs() []string {
 // Equal addresses in different representations must be treated alike.
 var ZZIPForm int
 
+// ZZStamp, if non-zero, is the queue timestamp given to the chunks built by ZZUDPChunk (routers stamp a chunk
+// when it enters their queue; whoever handles it later must judge by the clock, not by that stamp).
+var ZZStamp time.Time
+
 func zzForm(ip net.IP) net.IP {
 	switch ZZIPForm {
 	case 4:
@@ -94,6 +98,9 @@ func ZZUDPChunk(src, dst string, payload []byte) Chunk {
 	d, _ := net.ResolveUDPAddr("udp", dst)
 	s.IP, d.IP = zzForm(s.IP), zzForm(d.IP)
 	c := newChunkUDP(s, d)
+	if !ZZStamp.IsZero() {
+		c.timestamp = ZZStamp // as if the chunk had been queued in a router since then
+	}
 	c.userData = payload
 	return c
 }
